@@ -17,6 +17,8 @@ type BoundedItem struct {
 	Property    string            `json:"property"`
 	Name        string            `json:"name"`
 	Pkg         string            `json:"pkg"` // directory relative to /repo
+	Dir         string            `json:"dir"` // directory under /verif/replay holding the files (default: pkg)
+	Role        string            `json:"role"` // "stand-in" (default): covers clauses no contract discharges; "cross-check": runs next to a proof
 	Files       []string          `json:"files"`
 	Run         string            `json:"run"`
 	ReplayRun   string            `json:"replay_run"`
@@ -52,7 +54,10 @@ func loadBounded(path string) ([]*BoundedItem, error) {
 }
 
 // overlayTest runs `go test` in repo with the given files of /verif/replay/<pkg> overlaid into the package.
-func overlayTest(repo, verifDir, pkg string, files []string, run string, env map[string]string, timeoutS int) (string, error) {
+func overlayTest(repo, verifDir, pkg, dir string, files []string, run string, env map[string]string, timeoutS int) (string, error) {
+	if dir == "" {
+		dir = pkg
+	}
 	tmp, err := os.MkdirTemp("", "govc-ov")
 	if err != nil {
 		return "", err
@@ -67,7 +72,7 @@ func overlayTest(repo, verifDir, pkg string, files []string, run string, env map
 	}
 	repl := map[string]string{}
 	for _, f := range files {
-		repl[filepath.Join(repo, pkg, f)] = filepath.Join(verifDir, "replay", pkg, f)
+		repl[filepath.Join(repo, pkg, f)] = filepath.Join(verifDir, "replay", dir, f)
 	}
 	ob, _ := json.Marshal(map[string]interface{}{"Replace": repl})
 	os.WriteFile(filepath.Join(tmp, "ov.json"), ob, 0o644)
@@ -96,7 +101,11 @@ func runBounded(repo, verifDir string, it *BoundedItem, tier string) *BoundedRes
 	if tier == "thorough" {
 		to *= 5
 	}
-	out, err := overlayTest(repo, verifDir, it.Pkg, it.Files, it.Run, env, to)
+	env2 := map[string]string{"VERIF_PROP": it.Property}
+	for k, v := range env {
+		env2[k] = v
+	}
+	out, err := overlayTest(repo, verifDir, it.Pkg, it.Dir, it.Files, it.Run, env2, to)
 	r := &BoundedResult{Item: it, Output: out, Seconds: time.Since(t0).Seconds()}
 	for _, ln := range strings.Split(out, "\n") {
 		if k := strings.Index(ln, "VERIF-REPORT "); k >= 0 {
